@@ -1,5 +1,5 @@
 """C12 -- the roster view is the last full roster plus authorised pushes, nothing else."""
-import os
+import os, re
 from vlib.unit import Builder, Target, VERIF, scan_assumes
 from vlib.runner import Proof
 from vlib.opaque_profile import opaque_profile
@@ -46,6 +46,10 @@ def profile():
         class_types={'QXmppRosterManager', 'QXmppRosterManagerPrivate', 'RosterMap', 'PresMap', 'ResMap', 'QXmppRosterIq', 'QXmppIq',
                      'QXmppClient', 'RosterResult'},
         calls={
+            # QXmppUtils::jidToBareJid / jidToResource: uninterpreted functions of the JID with NO axiom beyond f("") == ""
+            # (the C12 contracts need none; the shared rules of vlib/opaque_profile.py would add idempotence facts)
+            'fn:jidToBareJid/1': ('expr', '{0} == 0 ? 0 : __CPROVER_uninterpreted_jid_bare({0})'),
+            'fn:jidToResource/1': ('expr', '{0} == 0 ? 0 : __CPROVER_uninterpreted_jid_resource({0})'),
             # d-pointer: std::unique_ptr<Private>::operator-> is the pointer itself
             'op->:QXmppRosterManagerPrivate*': ('arg', 0),
             # the client and its configuration: pure getters (ASSUMED)
@@ -168,6 +172,10 @@ def build(work, tier):
     alltext = [head]
 
     def add(cname, harness, kind, replace=(), protos=(), expect_loops=0, note='', timeout=600):
+        # a callee is replaced by its contract only where the lowered text really calls it (goto-instrument rejects a
+        # replacement of a function that is not called, and a deleted call must show up as a failed postcondition)
+        body = texts[cname][texts[cname].index('\n{'):]
+        replace = [r for r in replace if re.search(r'\b%s\(' % re.escape(r), body)]
         c = head + ''.join(b.prototype(texts[r]) for r in protos) + texts[cname] + '\nvoid h_%s(void) { %s %s }\n' % (cname, havoc, harness)
         f = b.write(cname + '.c', c)
         p = Proof(cname, f, 'h_' + cname, enforce=cname, replace=list(replace), kind=kind, include_dirs=[QT], timeout=timeout,
@@ -190,6 +198,17 @@ def build(work, tier):
         replace=[M + '_handleSubscriptionRequest'],
         note='loop-free; every presence, stated for one arbitrary (contact, resource); handleSubscriptionRequest() through an assumed frame contract')
 
+    # lemma harness: induction step over histories, contracts only
+    ops = [M + '_handleStanza', M + '__q_connected', LAMBDA, M + '__q_disconnected', M + '__q_presenceReceived']
+    c = head + ''.join(b.prototype(texts[r]) for r in ops) + b.subst(rd('lemma.h'))
+    f = b.write('lemma.c', c)
+    p = Proof('lemma_history', f, 'lemma_step', enforce=None, replace=ops, kind='complete', include_dirs=[QT], timeout=600, loop_contracts=False,
+              note='induction step of the history invariant; every operation replaced by the contract it was verified against')
+    p.labels = {}
+    p.expect_post = 4
+    proofs.append(p)
+    alltext.append(rd('lemma.h'))
+
     return {
         'proofs': proofs, 'functions': b.functions, 'dropped': b.dropped, 'fired': b.fired,
         'hooks': [h['id'] + ' (' + h['fn'] + '): ' + h['emit'] for h in HOOKS],
@@ -200,7 +219,7 @@ def build(work, tier):
 
 
 ASSUMED = [
-    'opaque-string axioms: equality only; jidToBareJid / jidToResource are uninterpreted functions with the axioms of qtmodel/opaque.h (QXmppUtils::jidToBareJid / jidToResource themselves are not verified here)',
+    'opaque-string axioms: equality only; jidToBareJid / jidToResource are uninterpreted functions of the JID with f("") == "" and no other axiom (QXmppUtils::jidToBareJid / jidToResource themselves are not verified here)',
     'A-DOM abstract DOM (qtmodel/opaque.h): tagName / attribute are functions of the node',
     'A-QMAP witness-key view of QMap<QString,Item> and QMap<QString,QMap<QString,QXmppPresence>> (units/C12/model.h): insert / remove / contains / operator[] / clear act on the witness key as QMap does; other keys are unconstrained',
     'A-QLIST QList<Item>: size and elements are functions of the list value; LIST_LAST is the last index whose item has the witness JID (its defining facts are assumed where the list is read)',
@@ -220,3 +239,42 @@ NOT_COVERED = [
     'that the connected / disconnected / presenceReceived signals of the client are wired to these slots and fire in session order (constructor connect() calls; event loop)',
     'the C08 aspect (an authorised roster get is consumed without an answer) is left to C08',
 ]
+
+
+# ---------------------------------------------------------------------------------------------------- native replay
+# A failed obligation is a VIOLATION whatever happens here; this only tries to attach a concrete input that shows the
+# failure on the REAL library built from the working tree (DESIGN 3.3/3.4): the two drivers run a battery of concrete
+# scenarios (look-alike senders, ordered add/update/remove items, session histories) and evaluate the property-level
+# postcondition natively.
+_native_cache = {}
+
+
+def _run_native(driver, arg):
+    from vlib import native
+    key = (driver, str(arg))
+    if key not in _native_cache:
+        _native_cache[key] = native.run_driver(os.path.join(HERE, driver), args=[str(arg)], timeout=300)
+    return _native_cache[key]
+
+
+def _drivers_for(proof_id):
+    if 'handleStanza' in proof_id:
+        return ['replay_push.cpp']
+    if 'lemma' in proof_id:
+        return ['replay_push.cpp', 'replay_session.cpp']
+    return ['replay_session.cpp']
+
+
+def find_input(unit, p, o, lab, work):
+    for drv in _drivers_for(p.id):
+        rc, out = _run_native(drv, 'all')
+        m = re.search(r'VIOLATED (?:scenario|seed)=(\d+)[^\n]*', out)
+        if rc == 1 and m:
+            return {'inputs': {'driver': drv, 'arg': int(m.group(1)), 'what': m.group(0)}, 'reproduced': True, 'native_output': out[-3000:]}
+    return None
+
+
+def native_replay(rp):
+    inp = rp['inputs']
+    rc, out = _run_native(inp['driver'], inp['arg'])
+    return rc == 1 and 'VIOLATED' in out, out
